@@ -20,7 +20,13 @@ from vf.core import Sub, Violation
 RULE = ("histories of <= 24 actions {New(k), Del, Coherent(amp(index)), Rgate, BSgate(theta, phi), MeasureHomodyne(select), invalid access "
         "(deleted / foreign / duplicate target), run segment [optionally querying a subset; optionally written as a brand-new Program instead of "
         "Program(previous)]} over consecutive Program segments on one engine per backend (gaussian, fock pure, fock mixed; bosonic for "
-        "single-segment histories), <= 6 indices ever, <= 4 active; flavour 'squeezed' adds Sgate and drives the phase-space backends only; "
+        "single-segment histories), initial registers of 1-4 modes, <= 11 indices ever (two-digit labels), <= 4 active, the register may run "
+        "empty; flavour 'squeezed' adds Sgate and drives the phase-space backends only; 'scratch' sequences (Vacuum; one of Sgate / Thermal / "
+        "Squeezed / DisplacedSqueezed / Kgate / Vgate / Fock+MeasureFock / S2gate / CKgate / two-mode MeasureFock; re-preparation by Coherent / "
+        "Ket / DensityMatrix / DisplacedSqueezed, two-mode Ket in either mode order) reach the remaining simulator entry points; a segment may "
+        "address modes by RegRef, by bare integer or through the tuple handed out by Program.context, may be run twice (same Program object), "
+        "with compile option optimize=True, or be built first and executed with its successor in one engine.run([p1, p2]); run(modes=..) in "
+        "any order (incl. cyclic shifts); simulator API called directly with deleted / never created indices; "
         "non-trivial = a Del of a non-last mode followed by a state query, or a New after a Del")
 ASSUMPTIONS = [
     "amplitudes are read from the returned state (means / quad_expectation) with tolerance 2e-3 (Fock cutoff 6, |alpha| <= 0.52)",
@@ -30,18 +36,51 @@ ASSUMPTIONS = [
     "bosonic engine: every Program restarts the simulator (finding F10, open) - bosonic is driven only through the first segment of a history",
     "run(modes=subset): subset refers to positions in the list of active modes for fock/gaussian (observed, consistent with mode_names); the "
     "check demands that the returned labels and data belong together, whichever convention the backend uses",
+    "run(modes=<non-ascending list>): the returned labels may follow the given order (BaseBackend.state docstring; fock, gaussian) or be ascending "
+    "(bosonic docstring); either way every label must carry the data of its own index",
+    "scratch sequences: the target is in the vacuum state when the extra operation acts and is re-prepared afterwards, so the model only sees the "
+    "re-preparation; parameters are mild (r <= 0.2, nbar 0.1, gamma 0.05) so that truncation at cutoff 6 stays below 1e-4 of the norm",
+    "a Fock state |n> that is counted right away yields n (MeasureFock, Fock engines); Result.samples_dict holds one entry per measurement of the "
+    "last program, filed under the index of the measured mode",
+    "the same Program object may be run twice in a row when it neither creates nor deletes modes (Program.can_follow: 'program fragment repetition')",
+    "simulator API (BaseBackend.begin_circuit docstring): an operation on a deleted or unassigned index raises (ValueError / IndexError accepted); "
+    "negative indices are not generated (AUDIT-FINDING gaussian-negative-index)",
     "TensorFlow backend not exercised (not installed)",
 ]
 REQUIRED_LABELS = {"all": ["del_first_mode", "new_multi", "second_segment", "invalid_access", "new_after_del", "subset_query_after_del",
-                           "flavour:squeezed", "new_with_correlated_modes", "fresh_program_rejected", "fresh_program_accepted", "del_two_modes_at_once"]}
+                           "flavour:squeezed", "new_with_correlated_modes", "fresh_program_rejected", "fresh_program_accepted", "del_two_modes_at_once",
+                           "addr:int", "addr:ctx", "all_modes_deleted", "new_after_all_deleted", "backend_probe:deleted", "backend_probe:never",
+                           "run_list_of_programs", "run_mode:optimize", "program_rerun", "scratch_above_deleted", "prep_route:ket", "prep_route:dm",
+                           "index_ge_10", "query_unsorted", "query_3cycle"]}
 
 BACKENDS = ["gaussian", "fock_pure", "fock_mixed", "bosonic"]
 CUTOFF = 6
-MAX_EVER, MAX_ACTIVE = 6, 4
+MAX_EVER, MAX_ACTIVE = 11, 4  # indices 0..10: two-digit labels (q[10]) are reachable
+
+# "scratch" sequences: Vacuum | t ; <op> | t ; <re-preparation of t with its own amplitude>.  The net effect on the model is the
+# re-preparation; an operation routed to another live mode (or past the end of the simulator's arrays) becomes visible there.
+SCRATCH_ONE = ["S", "T", "Q", "D", "K", "V", "F", "P"]  # Sgate, Thermal, Squeezed, DisplacedSqueezed, Kgate*, Vgate*, Fock(k)+MeasureFock*, nothing (* = Fock engines only)
+SCRATCH_TWO = ["S2", "CK", "F2", "P2"]  # S2gate, CKgate*, two Fock states + one MeasureFock on both*, nothing
+FINALS = ["coh", "ket", "dm", "dsq"]  # Coherent / Ket(coherent vector)* / DensityMatrix* / DisplacedSqueezed(alpha, 0, 0, 0)
+RUN_MODES = ["plain", "repeat", "defer", "optimize"]
 
 
 def amp(i):
-    return 0.12 + 0.08 * i
+    # indices >= 6 interleave with the first six (0.12, 0.20, .., 0.52 vs 0.15, 0.23, .., 0.47): every index keeps a distinct amplitude <= 0.52
+    return 0.12 + 0.08 * i if i < 6 else 0.15 + 0.08 * (i - 6)
+
+
+def _coh_ket(a):
+    from math import factorial
+
+    return np.array([a ** n / np.sqrt(factorial(n)) for n in range(CUTOFF)], dtype=complex) * np.exp(-abs(a) ** 2 / 2)
+
+
+def _run_opts(a):
+    o = a[3] if len(a) > 3 and isinstance(a[3], dict) else {}
+    mode = o.get("mode", "plain")
+    return {"ordered": bool(o.get("ordered", False)), "addr": o.get("addr", "ref") if o.get("addr", "ref") in ("ref", "int", "ctx") else "ref",
+            "mode": mode if mode in RUN_MODES else "plain"}
 
 
 class _FreshUnbuildable(Exception):
@@ -78,6 +117,14 @@ class World:
         self.dead = set()
         self.did_del = False
         self.nontrivial = False
+        self.broken = False
+        self.pending_raw = []  # the unresolved actions of the current segment (re-applied to the model when the program object is run twice)
+        self.queue = {b: [] for b in self.backends}  # programs that were built but are run later, in one engine.run([p1, p2, ..]) call
+        # what the simulators have seen so far (differs from the model while programs are queued)
+        self.ran_deleted, self.ran_ever, self.ran_active = [], n0, list(range(n0))
+
+    def has_queue(self):
+        return any(self.queue[b] for b in self.backends)
 
     # ---- model side ------------------------------------------------------------------------
     def active(self):
@@ -107,9 +154,14 @@ class World:
             if self.did_del:
                 self.labels.add("new_after_del")
                 self.nontrivial = True
+            if not act and self.did_del:
+                self.labels.add("new_after_all_deleted")
+            if idx[-1] >= 10:
+                self.labels.add("index_ge_10")
             return ["new", k, idx]
         if kind == "del":
-            if len(act) < 2:
+            # ["del", p] never removes the only active mode; ["del", p, 1] may (boundary: a register with no live mode)
+            if len(act) < (1 if len(a) > 2 and a[2] else 2):
                 return None
             i = act[a[1] % len(act)]
             if i == act[0]:
@@ -120,6 +172,8 @@ class World:
             self.deleted.append(i)
             self.did_del = True
             self.ref.trace_out_to_vacuum(i)
+            if not self.model:
+                self.labels.add("all_modes_deleted")
             return ["del", i]
         if kind == "delm":
             # one Del command on two modes, listed in the given (possibly ascending) order
@@ -145,6 +199,28 @@ class World:
             self.model[i] = complex(amp(i))
             self.ref.Coherent(amp(i), 0.0, i)
             return ["coh", i]
+        if kind == "scratch":
+            # ["scratch", kind, p, q, x, y, k, final, swap]: see SCRATCH_ONE / SCRATCH_TWO; the model only sees the re-preparation
+            sk = a[1]
+            two = sk in SCRATCH_TWO
+            if (sk not in SCRATCH_ONE and not two) or (two and len(act) < 2):
+                return None
+            i = act[a[2] % len(act)]
+            j = None
+            if two:
+                j = act[a[3] % len(act)]
+                if i == j:
+                    j = act[(act.index(i) + 1) % len(act)]
+            for t in (i, j):
+                if t is not None:
+                    self.model[t] = complex(amp(t))
+                    self.ref.Coherent(amp(t), 0.0, t)
+            self.labels.add("scratch:" + sk)
+            if a[7] != "coh":
+                self.labels.add("prep_route:" + a[7])
+            if any(d < i or (j is not None and d < j) for d in self.deleted):
+                self.labels.add("scratch_above_deleted")
+            return ["scratch", sk, i, j, float(a[4]), float(a[5]), int(a[6]), a[7] if a[7] in FINALS else "coh", bool(a[8])]
         if kind == "rot":
             i = act[a[1] % len(act)]
             self.model[i] *= np.exp(1j * a[2])
@@ -229,13 +305,36 @@ class World:
         if self.snap is None:
             self.snap = self._snapshot()  # model at the start of the current segment
         if a[0] == "run":
-            self.pending.append(["run", a[1] if len(a) > 1 else None, bool(a[2]) if len(a) > 2 else False])
+            opts = _run_opts(a)
+            fresh = (bool(a[2]) if len(a) > 2 else False) and self.segments >= 1 and not self.has_queue()
+            if opts["mode"] == "defer" and fresh:
+                opts["mode"] = "plain"
+            if opts["mode"] == "optimize":
+                # the optimizer may legally move every New in front of every Del of other modes: the simulator then holds all of them at
+                # once (6 modes at cutoff 6 = 35 GB as a density matrix).  Only segments whose worst-case ordering stays within MAX_ACTIVE
+                n_start = len(self.snap["model"]) if self.snap is not None else len(self.model)
+                if n_start + sum(r_[1] for r_ in self.pending if r_[0] == "new") > MAX_ACTIVE:
+                    opts["mode"] = "plain"
+            if opts["mode"] == "repeat":
+                # the same Program object is run twice in a row ("program fragment repetition", Program.can_follow): only for
+                # segments that leave the register as they found it
+                if fresh or self.has_queue() or any(r_[0] in ("new", "del", "delm") for r_ in self.pending):
+                    opts["mode"] = "plain"
+                else:
+                    for raw in list(self.pending_raw):
+                        self.apply_model(raw)  # the active set did not change: positions resolve to the same indices
+                    self.labels.add("program_rerun")
+                    if any(r_[0] == "meas" for r_ in self.pending):
+                        self.labels.add("remeasured")
+            self.pending.append(["run", a[1] if len(a) > 1 else None, fresh, opts])
+            self.pending_raw = []
             r = self.run_segment()
             self.snap = None
             return r
         r = self.apply_model(a)
         if r is not None:
             self.pending.append(r)
+            self.pending_raw.append(a)
         return None
 
     # ---- engine side -----------------------------------------------------------------------
@@ -248,21 +347,49 @@ class World:
         query = seg[-1][1] if seg and seg[-1][0] == "run" else None
         # fresh: the segment is written as a brand-new Program(number of active modes) instead of Program(previous segment); the engine
         # must either refuse it (register mismatch) or stay consistent with it
-        fresh = bool(seg and seg[-1][0] == "run" and seg[-1][2]) and self.segments >= 1
+        fresh = bool(seg and seg[-1][0] == "run" and seg[-1][2]) and self.segments >= 1 and not self.has_queue()
+        opts = seg[-1][3] if seg and seg[-1][0] == "run" and len(seg[-1]) > 3 else _run_opts(["run"])
+        mode = opts["mode"]  # plain | repeat (same Program object run twice) | defer (run later, in a list with the next segment) | optimize
+        if fresh and mode == "defer":
+            mode = "plain"
         fresh_outcomes = {}
         seg = [s for s in seg if s[0] != "run"]
+        start_act = sorted(self.snap["model"]) if self.snap is not None else self.active()  # active modes when the segment began
         self.segments += 1
         if self.segments >= 2:
             self.labels.add("second_segment")
         act = self.active()
         sub_pos = None
-        if query is not None and act:
+        if query is not None and act and mode != "defer":
             # backends disagree on whether ``modes`` counts positions among the active modes (fock, gaussian) or register indices
-            # (bosonic); only values that are valid under both readings are used, and labels + data must be consistent
-            sub_pos = sorted({p % (max(act) + 1) for p in query} & set(range(len(act))) & set(act)) or None
+            # (bosonic); while the bosonic engine takes part only values that are valid under both readings are used; labels + data must be consistent
+            valid = set(range(len(act)))
+            if "bosonic" in self.backends and "bosonic" not in self.dead and self.segments == 1 and mode != "repeat":
+                valid &= set(act)
+            if opts["ordered"]:
+                # the request keeps the drawn order (BaseBackend.state: "the requested modes in the given order")
+                sub_pos = []
+                for p in query:
+                    p = p % (max(act) + 1)
+                    if p in valid and p not in sub_pos:
+                        sub_pos.append(p)
+                sub_pos = sub_pos or None
+            else:
+                sub_pos = sorted({p % (max(act) + 1) for p in query} & valid) or None
             if sub_pos is not None and self.did_del:
                 self.labels.add("subset_query_after_del")
                 self.nontrivial = True
+            if sub_pos is not None and sub_pos != sorted(sub_pos):
+                self.labels.add("query_unsorted")
+                rk = [sorted(sub_pos).index(p) for p in sub_pos]
+                if any(rk[rk[k_]] != k_ for k_ in range(len(rk))):
+                    self.labels.add("query_3cycle")  # a permutation that is not its own inverse
+        if mode != "plain":
+            self.labels.add("run_mode:" + mode)
+        if self.queue and self.has_queue() and mode != "defer":
+            self.labels.add("run_list_of_programs")
+        if opts["addr"] != "ref":
+            self.labels.add("addr:" + opts["addr"])
         if self.did_del and "del_non_last" in self.labels:
             self.nontrivial = True
         for b in self.backends:
@@ -270,6 +397,9 @@ class World:
                 continue
             if b == "bosonic" and self.segments >= 2:
                 continue  # F10 (open): the bosonic engine restarts from vacuum for every program
+            if b == "bosonic" and mode in ("repeat", "defer"):
+                self.dead.add(b)  # F10 again: more than one run
+                continue
             if b == "bosonic" and any(s_[0] == "new" for s_ in seg):
                 # F26 (open): the bosonic backend cannot run programs that create modes; verify that it still fails the
                 # known way (crash inside the backend) and stop driving it in this history
@@ -285,11 +415,27 @@ class World:
                 prog = sf.Program(max(1, len(self.snap["model"])))
             else:
                 prog = sf.Program(self.n0) if self.prev[b] is None else sf.Program(self.prev[b])
+            exp_samples = {}  # index -> expected entries of Result.samples_dict for this program (None = value not predicted)
+            fock = b.startswith("fock")
             try:
                 with prog.context as q:
                     regs = {r.ind: r for r in prog.reg_refs.values()}
+                    if not is_fresh and [r.ind for r in q] != start_act:
+                        return self.ctx.fail("register.context_tuple.%s" % b, "the register handed out by Program.context holds modes %s, the model's active modes at this point are %s" % ([r.ind for r in q], start_act))
+                    addr = "ref" if is_fresh else opts["addr"]
+
+                    def T(i, regs=regs, q=q, addr=addr):
+                        """how the program addresses mode i: RegRef object, bare integer index, or element of the context tuple"""
+                        if addr == "int":
+                            return i
+                        if addr == "ctx" and i in start_act:
+                            return q[start_act.index(i)]
+                        return regs[i]
+
                     for s in seg:
                         if is_fresh and s[0] in ("del", "coh", "rot", "sq", "bs", "meas", "disp", "loss", "vac", "mz", "s2") and any(i not in regs for i in s[1:(3 if s[0] in ("bs", "mz", "s2") else 2)]):
+                            raise _FreshUnbuildable()
+                        if is_fresh and s[0] == "scratch" and any(i is not None and i not in regs for i in s[2:4]):
                             raise _FreshUnbuildable()
                         if is_fresh and s[0] == "delm" and any(i not in regs for i in s[1]):
                             raise _FreshUnbuildable()
@@ -307,29 +453,32 @@ class World:
                             for r in new:
                                 regs[r.ind] = r
                         elif s[0] == "del":
-                            ops.Del | regs[s[1]]
+                            ops.Del | T(s[1])
                         elif s[0] == "delm":
-                            ops.Del | tuple(regs[i_] for i_ in s[1])
+                            ops.Del | tuple(T(i_) for i_ in s[1])
                         elif s[0] == "coh":
-                            ops.Coherent(amp(s[1])) | regs[s[1]]
+                            ops.Coherent(amp(s[1])) | T(s[1])
+                        elif s[0] == "scratch":
+                            self._emit_scratch(ops, s, T, fock, exp_samples)
                         elif s[0] == "rot":
-                            ops.Rgate(s[2]) | regs[s[1]]
+                            ops.Rgate(s[2]) | T(s[1])
                         elif s[0] == "sq":
-                            ops.Sgate(s[2], s[3]) | regs[s[1]]
+                            ops.Sgate(s[2], s[3]) | T(s[1])
                         elif s[0] == "disp":
-                            ops.Dgate(s[2], s[3]) | regs[s[1]]
+                            ops.Dgate(s[2], s[3]) | T(s[1])
                         elif s[0] == "loss":
-                            ops.LossChannel(s[2]) | regs[s[1]]
+                            ops.LossChannel(s[2]) | T(s[1])
                         elif s[0] == "vac":
-                            ops.Vacuum() | regs[s[1]]
+                            ops.Vacuum() | T(s[1])
                         elif s[0] == "mz":
-                            ops.MZgate(s[3], s[4]) | (regs[s[1]], regs[s[2]])
+                            ops.MZgate(s[3], s[4]) | (T(s[1]), T(s[2]))
                         elif s[0] == "s2":
-                            ops.S2gate(s[3], s[4]) | (regs[s[1]], regs[s[2]])
+                            ops.S2gate(s[3], s[4]) | (T(s[1]), T(s[2]))
                         elif s[0] == "bs":
-                            ops.BSgate(s[3], s[4] if len(s) > 4 else 0.0) | (regs[s[1]], regs[s[2]])
+                            ops.BSgate(s[3], s[4] if len(s) > 4 else 0.0) | (T(s[1]), T(s[2]))
                         elif s[0] == "meas":
-                            ops.MeasureHomodyne(0.0, select=0.0) | regs[s[1]]
+                            ops.MeasureHomodyne(0.0, select=0.0) | T(s[1])
+                            exp_samples.setdefault(s[1], []).append(None)
                         elif s[0] == "invalid":
                             before = len(prog.circuit)
                             try:
@@ -351,6 +500,24 @@ class World:
                                 elif s[1] == "unknown_index":
                                     ops.Rgate(0.1) | 97
                                     return self.ctx.fail("register.unknown_index_accepted", "[%s] a gate on index 97 was accepted" % b)
+                                elif s[1] == "deleted_int" and self.deleted:
+                                    # the deleted mode is named by its bare integer index
+                                    d = self.deleted[s[2] % len(self.deleted)]
+                                    if d in regs and not regs[d].active:
+                                        ops.Dgate(0.1) | d
+                                        return self.ctx.fail("register.deleted_mode_accepted", "[%s] a gate on deleted mode %d (addressed by integer) was accepted" % (b, d))
+                                elif s[1] == "del_deleted" and self.deleted:
+                                    d = self.deleted[s[2] % len(self.deleted)]
+                                    if d in regs and not regs[d].active:
+                                        ops.Del | (regs[d] if s[2] % 2 else d)
+                                        return self.ctx.fail("register.deleted_mode_accepted", "[%s] Del of the already deleted mode %d was accepted" % (b, d))
+                                elif s[1] == "stale_ref" and self.prev[b] is not None and not is_fresh:
+                                    # a reference that belongs to the previous program segment (same index, still active there)
+                                    a_ = [i for i in sorted(regs) if regs[i].active and i in self.prev[b].reg_refs]
+                                    if a_:
+                                        i_ = a_[s[2] % len(a_)]
+                                        ops.Rgate(0.1) | self.prev[b].reg_refs[i_]
+                                        return self.ctx.fail("register.foreign_regref_accepted", "[%s] a gate on the previous program's RegRef of mode %d was accepted" % (b, i_))
                             except (RegRefError, IndexError, ValueError):
                                 pass
                             if len(prog.circuit) != before:
@@ -362,9 +529,26 @@ class World:
                 continue
             except Exception as exc:  # pylint: disable=broad-except
                 return self._crash(b, exc, "build")
+            if mode == "defer":
+                # built now, executed together with the next segment: engine.run([.., prog, next])
+                self.queue[b].append(prog)
+                self.prev[b] = prog
+                continue
+            if self.prev[b] is not None and not self.queue[b]:
+                for s in seg:
+                    if s[0] == "invalid" and s[1] in ("backend", "backend_negative"):
+                        rb = self._backend_probe(b, s[2], negative=s[1] == "backend_negative")
+                        if rb is not None:
+                            return rb
             try:
                 kw = {} if sub_pos is None else {"modes": sub_pos}
-                res = self.eng[b].run(prog, **kw)
+                if mode == "optimize":
+                    kw["compile_options"] = {"optimize": True}
+                progs = self.queue[b] + [prog]
+                self.queue[b] = []
+                if mode == "repeat":
+                    self.eng[b].run(prog)
+                res = self.eng[b].run(progs if len(progs) > 1 else prog, **kw)
             except Exception as exc:  # pylint: disable=broad-except
                 if is_fresh and isinstance(exc, RuntimeError) and "Register mismatch" in str(exc):
                     fresh_outcomes[b] = "rejected"
@@ -400,11 +584,12 @@ class World:
                     want_idx = [int(nm[2:-1]) for nm in names]
                 except Exception:  # pylint: disable=broad-except
                     return self.ctx.fail("state.mode_names.%s" % b, "unparsable mode names %s" % names)
-                if any(i not in act for i in want_idx) or want_idx != sorted(want_idx) or len(set(want_idx)) != len(want_idx):
+                if any(i not in act for i in want_idx) or len(set(want_idx)) != len(want_idx) or (want_idx != sorted(want_idx) and sub_pos == sorted(sub_pos)):
                     return self.ctx.fail("state.mode_names.%s" % b, "subset query %s of active modes %s returned labels %s" % (sub_pos, act, names))
                 conv_pos = [act[p] for p in sub_pos]
                 conv_raw = list(sub_pos)
-                if want_idx != conv_pos and want_idx != conv_raw:
+                # a request in non-ascending order: in the given order (BaseBackend.state) or ascending (bosonic backend's docstring)
+                if want_idx not in (conv_pos, conv_raw, sorted(conv_pos), sorted(conv_raw)):
                     return self.ctx.fail("state.subset_selection.%s" % b, "run(modes=%s) with active modes %s returned modes %s (neither positions nor indices)" % (sub_pos, act, want_idx))
             if names != ["q[%d]" % i for i in want_idx]:
                 return self.ctx.fail("state.mode_names.%s" % b, "state labels %s, expected %s" % (names, ["q[%d]" % i for i in want_idx]))
@@ -419,7 +604,15 @@ class World:
                 d = max([abs(g - e) for g, e in zip(got, exp)] + [0.0])
                 if d > 2e-3:
                     return self.ctx.fail("state.data_under_wrong_label.%s" % b, "modes labelled %s carry amplitudes %s, their indices should carry %s (active %s)" % (want_idx, np.round(got, 3).tolist(), np.round(exp, 3).tolist(), act))
-            if b in ("gaussian", "bosonic"):
+            # measurement records of this program: one entry per measurement, filed under the index of the measured mode
+            sd = {int(k_): v_ for k_, v_ in (res.samples_dict or {}).items()}
+            if sorted(sd) != sorted(exp_samples) or any(len(sd[k_]) != len(exp_samples[k_]) for k_ in exp_samples):
+                return self.ctx.fail("measure.samples_under_wrong_index.%s" % b, "Result.samples_dict has entries %s, the program measured %s" % ({k_: len(v_) for k_, v_ in sorted(sd.items())}, {k_: len(v_) for k_, v_ in sorted(exp_samples.items())}))
+            for k_ in sorted(exp_samples):
+                for g_, e_ in zip(sd[k_], exp_samples[k_]):
+                    if e_ is not None and int(round(float(np.real(np.asarray(g_).ravel()[0])))) != e_:
+                        return self.ctx.fail("measure.samples_under_wrong_index.%s" % b, "mode %d was prepared in |%d> and then counted, the record under its index says %s" % (k_, e_, np.asarray(g_).ravel()[:3].tolist()))
+            if b in ("gaussian", "bosonic") and want_idx:
                 # full first and second moments of the returned modes against the Gaussian model of the history
                 mu, V, _ = sfrun.moments_of(st_, b, 2.0)
                 rmu, rV = self.ref.reduced(want_idx)
@@ -435,7 +628,101 @@ class World:
                 self._restore(self.snap)  # nothing was executed: the model goes back to the start of the segment
             else:
                 self.labels.add("fresh_program_accepted")
+        if mode != "defer":
+            self.ran_deleted, self.ran_ever, self.ran_active = list(self.deleted), self.ever, self.active()
         return None
+
+    def _emit_scratch(self, ops, s, T, fock, exp_samples):
+        _, sk, i, j, x, y, k, fin, swap = s
+        tg = [t for t in (i, j) if t is not None]
+        for t in tg:
+            ops.Vacuum() | T(t)
+        if sk == "S":
+            ops.Sgate(0.2, x) | T(i)
+        elif sk == "T":
+            ops.Thermal(0.1) | T(i)
+        elif sk == "Q":
+            ops.Squeezed(0.2, x) | T(i)
+        elif sk == "D":
+            ops.DisplacedSqueezed(0.2, x, 0.15, y) | T(i)
+        elif sk == "K" and fock:
+            ops.Kgate(0.6 + 0.2 * np.cos(x)) | T(i)
+        elif sk == "V" and fock:
+            ops.Vgate(0.05) | T(i)
+        elif sk == "F" and fock:
+            n_ = 1 + k % 2
+            ops.Fock(n_) | T(i)
+            ops.MeasureFock() | T(i)
+            exp_samples.setdefault(i, []).append(n_)
+        elif sk == "S2":
+            ops.S2gate(0.15, x) | (T(i), T(j))
+        elif sk == "CK" and fock:
+            ops.CKgate(0.6 + 0.2 * np.cos(x)) | (T(i), T(j))
+        elif sk == "F2" and fock:
+            ni, nj = 1 + k % 2, 1 + (k // 2) % 2
+            ops.Fock(ni) | T(i)
+            ops.Fock(nj) | T(j)
+            ops.MeasureFock() | ((T(j), T(i)) if swap else (T(i), T(j)))
+            exp_samples.setdefault(i, []).append(ni)
+            exp_samples.setdefault(j, []).append(nj)
+        # re-preparation: every target gets the amplitude of its own index back
+        if fin in ("ket", "dm") and fock:
+            order = list(reversed(tg)) if swap else tg
+            kets = [_coh_ket(amp(t)) for t in order]
+            if fin == "ket":
+                arr = kets[0] if len(kets) == 1 else np.einsum("a,b->ab", kets[0], kets[1])
+                ops.Ket(arr) | tuple(T(t) for t in order)
+            else:
+                arr = np.outer(kets[0], kets[0].conj()) if len(kets) == 1 else np.einsum("a,b,c,d->abcd", kets[0], kets[0].conj(), kets[1], kets[1].conj())
+                ops.DensityMatrix(arr) | tuple(T(t) for t in order)
+        else:
+            for t in tg:
+                if fin == "dsq":
+                    ops.DisplacedSqueezed(amp(t), 0.0, 0.0, 0.0) | T(t)
+                else:
+                    ops.Coherent(amp(t)) | T(t)
+
+    # documented contract (BaseBackend.begin_circuit): "If the mode is deleted its index becomes invalid. An operation acting on an invalid or
+    # unassigned mode index raises an IndexError exception" (the simulators raise ValueError for deleted, IndexError for never-created indices)
+    _PROBES = [
+        ("rotation", lambda be, d, o: be.rotation(0.3, d)),
+        ("displacement", lambda be, d, o: be.displacement(0.2, 0.0, d)),
+        ("loss", lambda be, d, o: be.loss(0.5, d)),
+        ("squeeze", lambda be, d, o: be.squeeze(0.2, 0.0, d)),
+        ("beamsplitter(d, live)", lambda be, d, o: be.beamsplitter(0.3, 0.0, d, o)),
+        ("beamsplitter(live, d)", lambda be, d, o: be.beamsplitter(0.3, 0.0, o, d)),
+        ("del_mode", lambda be, d, o: be.del_mode(d)),
+        ("del_mode([d, live])", lambda be, d, o: be.del_mode([d] if o is None else [d, o])),
+        ("prepare_coherent_state", lambda be, d, o: be.prepare_coherent_state(0.3, 0.0, d)),
+        ("prepare_vacuum_state", lambda be, d, o: be.prepare_vacuum_state(d)),
+        ("prepare_thermal_state", lambda be, d, o: be.prepare_thermal_state(0.2, d)),
+        ("measure_homodyne", lambda be, d, o: be.measure_homodyne(0.0, d, select=0.0)),
+    ]
+
+    def _backend_probe(self, b, i, negative=False):
+        """call the simulator API directly with the index of a deleted / never created mode; it must refuse"""
+        be = self.eng[b].backend
+        name, call = self._PROBES[i % len(self._PROBES)]
+        if negative:
+            # AUDIT-FINDING gaussian-negative-index: the gaussian simulator's lists take -1 as "the last mode ever created" and carry the
+            # operation out (del_mode(-1) deletes it).  The kind "backend_negative" is understood (out/audit/C08-gaussian-negative-index.json)
+            # but no rule of the machine generates it
+            d, what = -1 - (i // len(self._PROBES)) % 2, "negative (never assigned)"
+        elif (i // len(self._PROBES)) % 2 == 0 and self.ran_deleted:
+            d, what = self.ran_deleted[i % len(self.ran_deleted)], "deleted"
+        else:
+            d, what = self.ran_ever + i % 3, "never created"
+        o = self.ran_active[i % len(self.ran_active)] if self.ran_active else None
+        if o is None and "live" in name and "del_mode" not in name:
+            return None
+        self.labels.add("backend_probe:" + what.split()[0])
+        try:
+            call(be, d, o)
+        except (ValueError, IndexError):
+            return None
+        except Exception as exc:  # pylint: disable=broad-except
+            return self._crash(b, exc, "backend_probe")
+        return self.ctx.fail("backend.invalid_mode_accepted.%s" % b, "backend.%s on the %s mode index %d was carried out instead of refused (active modes %s)" % (name, what, d, self.ran_active))
 
     def _bosonic_new_probe(self, seg):
         from strawberryfields import ops
@@ -503,6 +790,8 @@ def check_history(ctx, case):
     r = None
     for a in hist:
         r = w.step(a)
+    if w.has_queue():
+        r = w.step(["run", None])  # programs that were built but not yet executed
     ctx.note(case, nontrivial=w.nontrivial, labels=sorted(w.labels))
     return r
 
@@ -514,15 +803,21 @@ def make_machine(ctx):
             self.case = None
             self.world = None
 
-        @initialize(n0=st.integers(1, 2), flavour=st.sampled_from(["coherent", "coherent", "squeezed"]))
+        @initialize(n0=st.sampled_from([1, 2, 2, 3, 3, 4]), flavour=st.sampled_from(["coherent", "coherent", "coherent", "squeezed", "squeezed"]))
         def init(self, n0, flavour):
+            if flavour == "coherent" and n0 == 4:
+                n0 = 2  # four-mode density matrices are slow: registers that start with four modes are driven on the phase-space backends
             self.case = {"n0": n0, "flavour": flavour, "history": []}
             ctx.begin_case(self.case)
             self.world = World(ctx, n0, flavour)
 
         def _do(self, a):
             self.case["history"].append(a)
-            self.world.step(a)
+            try:
+                self.world.step(a)
+            except BaseException:
+                self.world.broken = True  # a violation was raised half-way through a segment: teardown must not drive this world any further
+                raise
 
         @rule(k=st.integers(1, 2))
         def new(self, k):
@@ -576,8 +871,10 @@ def make_machine(ctx):
         # Hypothesis enables a random subset of rules per history (swarm testing): sequences that need three particular rules in order are
         # rare, so the squeeze-mix(-create) sequences are also offered as single rules
         @precondition(lambda self: self.world is not None and self.world.flavour == "squeezed")
-        @rule(p=st.integers(0, 5), q=st.integers(0, 5), r=gen.fl(0.2, 0.8), ph=gen.angle(), t=gen.fl(0.3, 1.2), ph2=gen.angle(), k=st.integers(0, 2))
+        @rule(p=st.integers(0, 5), q=st.integers(0, 5), r=gen.fl(0.2, 0.8), ph=gen.angle(), t=gen.fl(0.3, 1.2), ph2=gen.angle(), k=st.sampled_from([0, 1, 1, 2]))
         def entangle(self, p, q, r, ph, t, ph2, k):
+            if k and len(self.world.active()) >= MAX_ACTIVE:
+                self._do(["del", p])  # make room for the New that follows
             self._do(["sq", p, r, ph])
             self._do(["bs", p, q, t, ph2])
             if k:
@@ -592,21 +889,121 @@ def make_machine(ctx):
             self._do(["new", k])
             self._do(["run", None, True])
 
+        @precondition(lambda self: self.world is not None and not self.world.did_del and not self.world.has_queue())
+        @rule(p=st.integers(0, 5), t=gen.angle(), k=st.integers(0, 2), addr=st.sampled_from(["ref", "int", "ctx"]))
+        def fresh_program_on_a_register_without_deletions(self, p, t, k, addr):
+            """nothing was ever deleted: a brand-new Program(n) has the same register as Program(previous) and may follow"""
+            self._do(["coh", p])
+            self._do(["run", None, False])
+            self._do(["rot", p, t])
+            if k:
+                self._do(["new", k])
+            self._do(["run", None, True, {"addr": addr}])
+
         @rule(p=st.integers(0, 5))
         def meas(self, p):
             self._do(["meas", p])
 
-        @rule(kind=st.sampled_from(["deleted", "duplicate", "foreign", "unknown_index"]), i=st.integers(0, 5))
+        @rule(kind=st.sampled_from(["deleted", "duplicate", "foreign", "unknown_index", "deleted_int", "del_deleted", "stale_ref", "backend"]), i=st.integers(0, 47))
         def invalid(self, kind, i):
             self._do(["invalid", kind, i])
 
-        @rule(q=st.one_of(st.none(), st.lists(st.integers(0, 5), min_size=1, max_size=3)), fresh=st.sampled_from([False, False, False, True]))
-        def run(self, q, fresh):
-            self._do(["run", q, fresh])
+        @rule(q=st.one_of(st.none(), st.lists(st.integers(0, 5), min_size=1, max_size=4)), fresh=st.sampled_from([False, False, False, True]),
+              ordered=st.booleans(), addr=st.sampled_from(["ref", "int", "ctx"]), mode=st.sampled_from(["plain", "plain", "repeat", "defer", "optimize"]))
+        def run(self, q, fresh, ordered, addr, mode):
+            self._do(["run", q, fresh, {"ordered": ordered, "addr": addr, "mode": mode}])
+
+        @rule(kind=st.sampled_from(SCRATCH_ONE + SCRATCH_TWO), p=st.integers(0, 5), q=st.integers(0, 5), x=gen.angle(), y=gen.angle(), k=st.integers(0, 3),
+              fin=st.sampled_from(FINALS), swap=st.booleans())
+        def scratch(self, kind, p, q, x, y, k, fin, swap):
+            self._do(["scratch", kind, p, q, x, y, k, fin, swap])
+
+        @precondition(lambda self: self.world is not None and len(self.world.active()) >= 2)
+        @rule(kind=st.sampled_from(SCRATCH_ONE + SCRATCH_TWO), lo=st.integers(0, 2), up=st.integers(0, 2), up2=st.integers(0, 2), x=gen.angle(), y=gen.angle(), k=st.integers(0, 3),
+              fin=st.sampled_from(FINALS), swap=st.booleans(), addr=st.sampled_from(["ref", "int", "ctx"]), split=st.booleans(), mode=st.sampled_from(["plain", "optimize", "repeat"]))
+        def tag_all_delete_low_then_scratch_above(self, kind, lo, up, up2, x, y, k, fin, swap, addr, split, mode):
+            """every mode carries its own amplitude, a mode with a lower index is deleted, then an operation outside the usual alphabet acts
+            on a mode above the gap (in the same or in the next program), then a run"""
+            n = len(self.world.active())
+            for pos in range(n):
+                self._do(["coh", pos])
+            lo = lo % (n - 1)
+            self._do(["del", lo])
+            if split:
+                self._do(["run", None, False])
+            n -= 1
+            a_ = lo + up % (n - lo)
+            b_ = lo + up2 % (n - lo)
+            self._do(["scratch", kind, a_, b_, x, y, k, fin, swap])
+            self._do(["run", None, False, {"addr": addr, "mode": mode}])
+
+        @rule(perm=st.one_of(st.permutations([0, 1, 2, 3]), st.sampled_from([[1, 2, 0, 3], [2, 0, 1, 3], [1, 2, 3, 0], [3, 0, 1, 2], [3, 1, 2, 0]])),
+              mode=st.sampled_from(["plain", "plain", "repeat"]), m=st.integers(0, 3), do_meas=st.booleans())
+        def tag_all_then_query_in_permuted_order(self, perm, mode, m, do_meas):
+            """run(modes=<positions in any order, incl. cyclic shifts>) of (at least three, if possible) individually tagged modes"""
+            n = len(self.world.active())
+            if n < 3:
+                self._do(["new", 3 - n])
+                n = len(self.world.active())
+            if n == 0:
+                return
+            for pos in range(n):
+                self._do(["coh", pos])
+            if self.world.segments == 0:
+                self._do(["run", None, False])  # the bosonic engine (modes = indices, not positions) takes part in the first segment only
+            if do_meas:
+                self._do(["meas", m])
+            self._do(["run", [p_ for p_ in perm if p_ < n], False, {"ordered": True, "mode": mode}])
+
+        @precondition(lambda self: self.world is not None and len(self.world.active()) >= 1)
+        @rule(k=st.integers(1, 2), split=st.booleans(), together=st.booleans())
+        def delete_every_mode_then_new(self, k, split, together):
+            """the register runs empty (state with zero modes), then modes are created again"""
+            n = len(self.world.active())
+            if together and n == 3:
+                self._do(["delm", 0, 2])
+                n = 1
+            for _ in range(n):
+                self._do(["del", 0, 1])
+            if split:
+                self._do(["run", None, False])
+            self._do(["new", k])
+            for pos in range(len(self.world.active())):
+                self._do(["coh", pos])
+            self._do(["run", None, False])
+
+        @rule(n=st.integers(2, 5), p=st.integers(0, 3), run_between=st.booleans())
+        def churn(self, n, p, run_between):
+            """create / tag / delete in a row: the index counter climbs (two-digit indices) while few modes are alive"""
+            for _ in range(n):
+                self._do(["new", 1])
+                self._do(["coh", len(self.world.active()) - 1])
+                self._do(["del", p])
+            if run_between:
+                self._do(["run", None, False])
+
+        @precondition(lambda self: self.world is not None and self.world.flavour == "coherent")
+        @rule(p=st.integers(0, 5), t=gen.angle(), d=st.integers(0, 5), addr=st.sampled_from(["ref", "int", "ctx"]))
+        def build_two_programs_then_run_them_as_a_list(self, p, t, d, addr):
+            """segment k is only built; segment k+1 = Program(segment k) deletes / creates; both are executed by one engine.run([pk, pk+1])"""
+            self._do(["coh", p])
+            self._do(["rot", p, t])
+            self._do(["run", None, False, {"mode": "defer", "addr": addr}])
+            self._do(["del", d])
+            self._do(["new", 1])
+            self._do(["coh", len(self.world.active()) - 1])
+            self._do(["run", None, False, {"mode": "plain", "addr": addr}])
+
+        @precondition(lambda self: self.world is not None and self.world.segments >= 1 and self.world.did_del)
+        @rule(i=st.integers(0, 47), j=st.integers(0, 47))
+        def backend_level_access_to_dead_index(self, i, j):
+            self._do(["invalid", "backend", i])
+            self._do(["invalid", "backend", j])
+            self._do(["run", None, False])
 
         def teardown(self):
             if self.world is not None:
-                if self.world.pending:
+                if (self.world.pending or self.world.has_queue()) and not self.world.broken:
                     self._do(["run", None])
                 ctx.note(self.case, nontrivial=self.world.nontrivial, labels=sorted(self.world.labels))
 
@@ -614,14 +1011,20 @@ def make_machine(ctx):
 
 
 SUBS = [
-    Sub("modes_machine", check=check_history, machine=make_machine, examples={"quick": 60, "thorough": 500}, steps={"quick": 18, "thorough": 24},
-        shards={"quick": 5, "thorough": 16}, rule="rule-based machine over New/Del/prepare/gates/measure/invalid access/run with subset queries, 4 engines in lock-step"),
+    Sub("modes_machine", check=check_history, machine=make_machine, examples={"quick": 50, "thorough": 500}, steps={"quick": 18, "thorough": 24},
+        shards={"quick": 6, "thorough": 16},
+        budget={"quick": 400, "thorough": 1500},  # wall-clock per shard; a shard needs ~40 s on an idle machine, the default 150 s is hit when the host is overloaded
+        rule="rule-based machine over New/Del/prepare/gates/measure/invalid access/run with subset queries, 4 engines in lock-step"),
 ]
 
 MANIFEST = {
     "technique": "Hypothesis stateful (rule-based) machine; model-based oracle: index -> coherent amplitude plus a full Gaussian (refsim) model of every index; engines of all backends in lock-step",
+    "note": ("trusted: vf/refsim.py (Gaussian reference), numpy; Hypothesis for generation.  Besides the frontend (Program / Engine) the simulator API is "
+             "called directly with deleted / never created indices (BaseBackend.begin_circuit docstring)."),
     "text": ("Generated histories of mode creation, deletion, use and measurement over consecutive programs are executed on one engine per "
-             "backend and on a model that knows which amplitude every mode index carries; after every segment the program register, "
-             "backend.get_modes(), the number, labels and per-mode data of the returned state must agree with the model, indices are never "
-             "reused, and invalid accesses are rejected without side effects."),
+             "backend and on a model that knows which amplitude every mode index carries; after every segment the program register (also the "
+             "tuple handed out by Program.context), backend.get_modes(), the number, labels and per-mode data of the returned state (full or any "
+             "ordered subset) and the measurement records must agree with the model, indices are never reused, and invalid accesses (frontend "
+             "and simulator API) are rejected without side effects.  Segments are addressed by RegRef / integer / context tuple, run once, "
+             "twice, optimized, or as a list of programs; registers start with 1-4 modes, may run empty and reach two-digit indices."),
 }
